@@ -267,7 +267,9 @@ def isVerChar (c : Char) : Bool :=
   (0x41 ≤ n && n ≤ 0x5A) || (0x61 ≤ n && n ≤ 0x7A) || (0x30 ≤ n && n ≤ 0x39) || n == 0x5F || n == 0x2E || n == 0x2D
 
 /-- the XML declaration, only at offset 0: `<?xml` pseudo-attributes `?>`. Pseudo-attribute values are literal (no
-    references): version any `[A-Za-z0-9._-]*` (expat does not insist on 1.0), encoding utf-8 / utf8 in any case,
+    references): version any `[A-Za-z0-9._-]*` (expat does not insist on 1.0), encoding utf-8 in any case (NOT `utf8`: expat does not know that
+    name, Python's fallback then builds a single-byte table which rejects every non-ASCII character - found by the C02
+    correspondence run; such documents are outside the parser's domain: `none`),
     standalone yes / no; this order only. -/
 def skipDecl (s : Str) : Option Str :=
   match stripPrefix "<?xml".toList s with
@@ -291,7 +293,7 @@ def skipDecl (s : Str) : Option Str :=
               | some v => v.all isVerChar
             let okEnc := match Xml.attr as "encoding".toList with
               | none => true
-              | some e => e.map lowerAsciiChar = "utf-8".toList ∨ e.map lowerAsciiChar = "utf8".toList
+              | some e => e.map lowerAsciiChar = "utf-8".toList
             let okSa := match Xml.attr as "standalone".toList with
               | none => true
               | some e => e = "yes".toList ∨ e = "no".toList
